@@ -685,6 +685,9 @@ primaryexpr(struct scope *s)
 		src += decodechar(src, &chr, &hexoct, "character constant", &tok.loc);
 		if (hexoct && chr > (!t || t->size == 1 ? 0xff : t->size == 2 ? 0xffff : 0xffffffff))
 			error(&tok.loc, "escape sequence in character constant is out of range");
+		/* a UTF-8 or UTF-16 character constant must be a single code unit (C23 6.4.4.4p9) */
+		if (!hexoct && t && chr > (t->size == 1 ? 0x7f : t->size == 2 ? 0xffff : 0x10ffff))
+			error(&tok.loc, "character constant cannot be represented in a single code unit");
 		e = mkconstexpr(t ? t : &typeint, chr);
 		/* an unprefixed constant has the value of a char object converted to int (C11 6.4.4.4p10) */
 		if (!t && chr <= 0xff && chr & 0x80 && targ->signedchar)
